@@ -63,7 +63,7 @@ Proof.
   { assert (Hc : canon_params (order_params sorted []) = []) by (destruct sorted; reflexivity).
     rewrite <- Hc. apply (join_split (s2l "BEGIN") [] sorted n l);
       [reflexivity|reflexivity|reflexivity|reflexivity|apply token_value_safe; exact Ht|exact Hl]. }
-  unfold step. rewrite Hp. cbn [upper map]. 
+  unfold step, step_parts. rewrite Hp. cbn [upper map]. 
   change (str_is (upper (s2l "BEGIN")) "BEGIN") with true. cbv iota.
   rewrite (token_ascii n Ht), Hu. reflexivity.
 Qed.
@@ -82,7 +82,7 @@ Proof.
   { assert (Hc : canon_params (order_params sorted []) = []) by (destruct sorted; reflexivity).
     rewrite <- Hc. apply (join_split (s2l "END") [] sorted n l);
       [reflexivity|reflexivity|reflexivity|reflexivity|apply token_value_safe; exact Ht|exact Hl]. }
-  unfold step. rewrite Hp.
+  unfold step, step_parts. rewrite Hp.
   change (str_is (upper (s2l "END")) "BEGIN") with false.
   change (str_is (upper (s2l "END")) "END") with true. cbv iota.
   cbn [stack mk]. destruct st as [|g r]; cbn [cache mk stack done]; destruct (_ && _); reflexivity.
@@ -104,7 +104,7 @@ Proof.
   destruct Hv as [[[[[Hwf Hhead] Hun] Hlf] Hcls] Hdec].
   assert (Hp : parts l = Ok (k, canon_params (order_params sorted (v_params v)), line_value_path (v_text v))).
   { apply (parts_from_parts k (v_params v) sorted (v_text v) l); assumption. }
-  unfold step. rewrite Hp, Hb, He. cbn [stack mk].
+  unfold step, step_parts. rewrite Hp, Hb, He. cbn [stack mk].
   destruct (class_name_of_key (type_key k)) as [cls|]; [|discriminate].
   apply str_eqb_eq in Hcls.
   destruct (decode_line dec k (canon_params (order_params sorted (v_params v))) (line_value_path (v_text v))) as [[|t [|t2 ts]]| | |];
